@@ -33,7 +33,14 @@ impl PathArg for String { open spec fn text(&self) -> Seq<char> { self@ } }
 impl PathBuf {
     #[verifier::external_body] pub fn from(s: &str) -> (r: PathBuf) ensures r == path_from(s@) { unimplemented!() }
     #[verifier::external_body] pub fn join<A: PathArg>(&self, s: A) -> (r: PathBuf) ensures r == path_join(*self, s.text()) { unimplemented!() }
+    /// API neighbourhood (not called by the unchanged code): resolving against the file system — nothing is promised.
+    #[verifier::external_body] pub fn canonicalize(&self) -> (r: Result<PathBuf, IoError>) { unimplemented!() }
+    #[verifier::external_body] pub fn exists(&self) -> (r: bool) { unimplemented!() }
+    #[verifier::external_body] pub fn is_absolute(&self) -> (r: bool) { unimplemented!() }
+    #[verifier::external_body] pub fn is_relative(&self) -> (r: bool) { unimplemented!() }
+    #[verifier::external_body] pub fn is_dir(&self) -> (r: bool) { unimplemented!() }
 }
+#[verifier::external_body] pub struct IoError { _p: u8 }
 /// `format!(lit, a)` (rule N8): an uninterpreted function of the literal and the argument's text
 #[verifier::external_body] pub fn verif_format_1(lit: &str, a: &str) -> (r: String) ensures r@ == fmt1(lit@, a@) { unimplemented!() }
 pub struct Yaml;
